@@ -77,10 +77,13 @@ _pkg_digest = None
 def get_pkg_digest() -> hashlib._Hash:
     global _pkg_digest
     if _pkg_digest is None:
-        _pkg_digest = hashlib.sha1(__name__.encode('utf-8'))
+        # (published when complete: another thread must not start from
+        # a digest that has seen only some of the packages)
+        digest = hashlib.sha1(__name__.encode('utf-8'))
         for name, version in get_package_versions():
-            _pkg_digest.update(name.encode('utf-8'))
-            _pkg_digest.update(version.encode('utf-8'))
+            digest.update(name.encode('utf-8'))
+            digest.update(version.encode('utf-8'))
+        _pkg_digest = digest
     return _pkg_digest.copy()
 
 
